@@ -66,7 +66,7 @@ func c11GenRing(gen string) []ref.F {
 func init() {
 	engine.Register(&engine.Check{
 		ID: "C11", Level: "exploration",
-		Rule:        "every closed ring of 3 and 4 vertices on the 4x4 grid and of 5 vertices on the 3x3 grid (thorough: also 5 vertices on the 4x4 grid) - simple, self-intersecting, degenerate, with repeated vertices and horizontal edges, every direction and start vertex - with vertices on even coordinates x every query point of the doubled grid (edge midpoints, points level with vertices); translated copies at 2^26 and layouts XYZ/XYZM with NaN extras; the vertex lattice queried again in XYZ/XYM/XYZM with extra ordinates that differ between query point and vertices (own tags, or the next vertex's coordinates repeated as Z/M); a split-ratio sweep (triangles with a slanted edge through the origin divided a:b for all a,b <= 24 in 10 directions, every start vertex and direction, queried at the origin and its neighbours); LocatePointInRing/IsPointInRing vs the exact even-odd rule evaluated with a vertical ray; IsOnLine/PointIntersectsLine for every segment and 3-vertex polyline x every point of the 5x5 grid plus +-1 ulp perturbations of exactly-on-segment configurations; plus lean sweeps of ~7*10^6 point-on-segment queries over near-collinear float triples (the float-line lattice, mixed-magnitude collinear triples with one- and two-ulp perturbations, segments through the coordinate origin; each point of a triple against the segment of the other two). distinct_nontrivial = distinct (ring, point) pairs with a ring of non-zero area or a boundary hit Round 7: zig-zag tower rings of 4103, 8403, 20003 (thorough 66003) coordinates queried inside, outside and on both edges at every height, both directions, three start vertices. Round 9: query points 0..3 ulps around both ends of axis-parallel and diagonal segments whose ends differ in magnitude or sign. Round 10: PointIntersectsLine also with the robust strategy passed as a pointer.",
+		Rule:        "every closed ring of 3 and 4 vertices on the 4x4 grid and of 5 vertices on the 3x3 grid (thorough: also 5 vertices on the 4x4 grid) - simple, self-intersecting, degenerate, with repeated vertices and horizontal edges, every direction and start vertex - with vertices on even coordinates x every query point of the doubled grid (edge midpoints, points level with vertices); translated copies at 2^26 and layouts XYZ/XYZM with NaN extras; the vertex lattice queried again in XYZ/XYM/XYZM with extra ordinates that differ between query point and vertices (own tags, or the next vertex's coordinates repeated as Z/M); a split-ratio sweep (triangles with a slanted edge through the origin divided a:b for all a,b <= 24 in 10 directions, every start vertex and direction, queried at the origin and its neighbours); LocatePointInRing/IsPointInRing vs the exact even-odd rule evaluated with a vertical ray; IsOnLine/PointIntersectsLine for every segment and 3-vertex polyline x every point of the 5x5 grid plus +-1 ulp perturbations of exactly-on-segment configurations; plus lean sweeps of ~7*10^6 point-on-segment queries over near-collinear float triples (the float-line lattice, mixed-magnitude collinear triples with one- and two-ulp perturbations, segments through the coordinate origin; each point of a triple against the segment of the other two). distinct_nontrivial = distinct (ring, point) pairs with a ring of non-zero area or a boundary hit Round 7: zig-zag tower rings of 4103, 8403, 20003 (thorough 66003) coordinates queried inside, outside and on both edges at every height, both directions, three start vertices. Round 9: query points 0..3 ulps around both ends of axis-parallel and diagonal segments whose ends differ in magnitude or sign. Round 10: PointIntersectsLine also with the robust strategy passed as a pointer. Round 11: worst cases of the Euclid-like determinant sign - every periodic partial-quotient word of period <=3 over 1..4, every consecutive convergent pair fitting the 2^26 grid, 8 symmetries x 4 corners x 2 directions x 5 queries.",
 		Run:         c11Run,
 		Replay:      func(c *engine.Ctx, kind string, raw json.RawMessage) { c11Exec(c, decodeCase[c11Case](raw)) },
 		Assumptions: []string{"ordinates on an integer grid up to 2^26 (differences exact) for rings; moderate floats for point-on-line"},
